@@ -83,7 +83,9 @@ func init() {
 				break
 			}
 		}
-		return []string{strings.Join(out, ",")}, nil
+		// one reply field per word (a single joined field of 4^9 hashes is a 19 MB field, too long
+		// for the line decoder of the model driver)
+		return out, nil
 	})
 }
 
